@@ -131,9 +131,10 @@ func (E *Engine) buildQuery(o *Obligation, slice bool) string {
 }
 
 // level 0: all facts; 1: cone of influence of goal and path condition; 2: cone of influence of the goal only;
-// 3: only facts that share a symbol with the goal directly (one round).
+// 3: only facts that share a symbol with the goal directly (one round); 4: all quantifier-free facts
+// (counterexample search: a model of it is only a candidate and must be confirmed by a replay).
 func (E *Engine) buildQueryLevel(o *Obligation, level int) string {
-	slice := level > 0
+	slice := level > 0 && level < 4
 	tb := E.tb
 	var asserts []*Term
 	facts := E.facts[:o.NFacts]
@@ -193,8 +194,15 @@ func (E *Engine) buildQueryLevel(o *Obligation, level int) string {
 		}
 	} else {
 		for _, f := range facts {
+			if level == 4 && hasQuant(f.body) {
+				continue
+			}
 			asserts = append(asserts, tb.Implies(f.guard, f.body))
 		}
+	}
+	if level == 4 {
+		tb.dropQuantAxioms = true
+		defer func() { tb.dropQuantAxioms = false }()
 	}
 	asserts = append(asserts, o.Reach)
 	if !o.Cover {
